@@ -34,8 +34,10 @@ package sourcerunner
 //@   atcall NewKeySpace: arg0 == params.keyGroupCount && arg1 == len(params.operators)
 //@   ensures result != nil && result.keyGroupCount == params.keyGroupCount && len(result.operators) == len(params.operators)
 //@   atcall newBatchingOperator: arg1 == params.operators[i]
+//@   ensures forall(0, len(params.operators), func(j int) bool { return result.operators[j] != nil && result.operators[j].op == params.operators[j] })
 //@   loop 0:
 //@     invariant len(operators) == len(params.operators)
+//@     invariant forall(0, idx_, func(j int) bool { return operators[j] != nil && operators[j].op == params.operators[j] })
 
 //@ func operatorCluster.routeEvent
 //@   property C04
@@ -107,6 +109,8 @@ package sourcerunner
 // batch still waiting in a buffer could be overtaken by the time-out flush of the following batch
 // and same-key records would reach the operator out of order (C04).
 //@ func newBatchingOperator
-//@   property C04
+//@   property C04 C05
 //@   nosafety
+//@   modifies nothing
 //@   atcall makechan: arg0 == 0
+//@   ensures result != nil && result.op == op
